@@ -15,6 +15,7 @@ A session is one endpoint plus a clock.  Request lines:
     send <pid> v|n <hex> | flush <pid> | sendcl <addr> <hex>
     tick | needs_tick
     dup                                   oracle-only marker: an address is about to get a second peer
+    nextid <n>                            verification hook `Net::verif_set_next_peer_id` (counter of fresh ids)
 
 `<pX>` is the canonical text of `Packet::read(bytes, hint X)` as in domain `conn6`; the driver never
 looks at the bytes.  Output of an op: `<ret> s=<addr>@<packet>,… e=<events> w=<warnings> nt=<needs_tick>`.
@@ -93,6 +94,10 @@ def stepLine (w : World) (toks : List String) : World × String :=
     | some ms => ({ w with now := w.now + msToUs ms }, "ok")
     | none => (w, "bad-op")
   | ["dup"] => (w, "ok")
+  | ["nextid", n] =>
+    match n.toNat? with
+    | some n => if n < idMod then ({ w with net := { w.net with nextPeerId := n } }, "ok") else (w, "bad-op")
+    | none => (w, "bad-op")
   | _ =>
     if w.dead then (w, "dead")
     else if toks == ["needs_tick"] then (w, outLine w.net .unit {})
